@@ -82,6 +82,13 @@ func famIdentity(w *World, c *Case, rng *rand.Rand) {
 		case "nested-rf":
 			ti.peer, ti.ctxval = "", "opener-ctx"
 			tunnels["nested-rev"] = ti
+		case "nested-fr":
+			// handlers of the inner forward tunnel run at the network client, under the outer reverse tunnel's serving context
+			ti.peer, ti.ctxval = "server-0", "opener-ctx"
+			tunnels["inner-fwd"] = ti
+		case "nested-rr":
+			ti.peer, ti.ctxval = "", "opener-ctx"
+			tunnels["nested-rev"] = ti
 		}
 	} else {
 		w.Handler = w.NewHandler(w.Cfg.ClientNoFC, AffinityFromMD)
